@@ -182,7 +182,7 @@ impl Monitor for C04 {
     }
     fn rule(&self) -> &'static str {
         "case = one sentinel-terminated text (generator classes of C03, length 1-700 quick / 1-20000 thorough, 1-4 sentinels) with an alphabet that is a superset \
-         of its symbols, and 2-4 Occ sampling rates from {1, 2-7, 63,64,65,66, 127-130, n, 2n, random in [1,2n]}. Checked: bwt[r] = cyclic predecessor of the r-th \
+         of its symbols, and 2-4 Occ sampling rates from {1, 2-7, 63,64,65,66, 127-130, n, 2n, random in [1,2n], 65535-65600, 2^17, 2^24, 2^32-1}. Checked: bwt[r] = cyclic predecessor of the r-th \
          suffix, less[c] for every index of the returned vector, Occ.get(r,c) for every row (stride-sampled only when n*sigma*k exceeds the work budget) and every \
          alphabet symbol plus '$', invert_bwt for single-sentinel texts. shape = (text class, length class, #symbols, #sentinels, rate class, look-ahead checkpoint \
          branches hit (hook counters)); non-trivial = length >= 3"
@@ -212,6 +212,12 @@ impl Monitor for C04 {
                 }
                 5 => ("directed:multi-sentinel", b"ACGT$ACGT$AC$".to_vec(), vec![1, 2, 5, 66]),
                 6 => ("directed:sentinel-0", vec![5, 9, 5, 9, 9, 0], vec![1, 4]),
+                7 => {
+                    // sampling rates around and beyond 2^16 (a rate above the text length is legal: one checkpoint)
+                    let mut t: Vec<u8> = b"ACGTTGCA".iter().cycle().take(big).cloned().collect();
+                    t.push(b'$');
+                    ("directed:huge-rates", t, vec![65535, 65536, 65537, 65600, 1 << 20, 1 << 31, u32::MAX])
+                }
                 _ => {
                     let s = pick_sentinel(rng);
                     let n = rng.range(70, big);
@@ -235,8 +241,9 @@ impl Monitor for C04 {
         let nn = text.len() as u32;
         let mut ks = vec![];
         for _ in 0..rng.range(2, 4) {
-            ks.push(match rng.below(8) {
+            ks.push(match rng.below(9) {
                 0 => 1,
+                8 => *rng.pick(&[65535u32, 65536, 65537, 65600, 1 << 17, 1 << 24, u32::MAX]),
                 1 => rng.range(2, 7) as u32,
                 2 => *rng.pick(&[63u32, 64, 65, 66]),
                 3 => *rng.pick(&[127u32, 128, 129, 130]),
